@@ -500,8 +500,72 @@ fn probe_cell_plain(rep: &mut Report) {
     rep.cases += 1;
 }
 
+/// A read guard (plain, mapped, or of the untyped handle) pins the value whatever its layout: a reload that is
+/// notified and asked for while the guard lives neither drops the old value nor moves the reload id before the
+/// guard is released, and replaces it exactly once afterwards.  One-sided: a slow machine can only delay the reload.
+fn probe_guard_pins<T: Probe + assets_manager::Asset>(rep: &mut Report) {
+    let ctr = T::ctr();
+    let src = MemSource::new(true);
+    src.st.lock().unwrap().trace_reads = false;
+    src.put("a", "x", b"v1");
+    let cache: &'static AssetCache<MemSource> = Box::leak(Box::new(AssetCache::with_source(src.clone())));
+    let h = cache.load::<T>("a").unwrap();
+    for (round, kind) in ["read", "mapped", "untyped"].iter().enumerate() {
+        rep.checks += 1;
+        let drops0 = ctr.1.load(AO::SeqCst);
+        let rid0 = rid_of(h.last_reload_id());
+        let returned = std::sync::Arc::new(std::sync::atomic::AtomicBool::new(false));
+        let (during_drops, during_rid, during_returned);
+        let t;
+        {
+            let g_plain;
+            let g_mapped;
+            let g_untyped;
+            match *kind {
+                "read" => { g_plain = Some(h.read()); g_mapped = None; g_untyped = None; }
+                "mapped" => { g_plain = None; g_mapped = Some(assets_manager::AssetReadGuard::map(h.read(), |v| v)); g_untyped = None; }
+                _ => { g_plain = None; g_mapped = None; g_untyped = Some(h.as_untyped().read()); }
+            }
+            src.put("a", "x", format!("v{}", round + 2).as_bytes());
+            src.send(&[OwnedDirEntry::File("a".into(), "x".into())]);
+            let r2 = returned.clone();
+            t = std::thread::spawn(move || {
+                // several calls: the event may be dequeued after the first request
+                for _ in 0..3 {
+                    cache.hot_reload();
+                    std::thread::sleep(std::time::Duration::from_millis(20));
+                }
+                r2.store(true, AO::SeqCst);
+            });
+            std::thread::sleep(std::time::Duration::from_millis(400));
+            during_drops = ctr.1.load(AO::SeqCst) - drops0;
+            during_rid = rid_of(h.last_reload_id());
+            during_returned = returned.load(AO::SeqCst);
+            drop((g_plain, g_mapped, g_untyped));
+        }
+        let _ = t.join();
+        let t0 = std::time::Instant::now();
+        while rid_of(h.last_reload_id()) == rid0 && t0.elapsed() < std::time::Duration::from_secs(20) {
+            cache.hot_reload();
+        }
+        let after_drops = ctr.1.load(AO::SeqCst) - drops0;
+        if during_drops != 0 || during_rid != rid0 {
+            rep.mismatch(json!({"what":"a reload replaced (dropped) the value or moved the reload id while a read guard could still reach the value",
+                "type":T::NAME,"guard":kind,"values_dropped_while_guarded":during_drops,"reload_id_moved":during_rid != rid0,"hot_reload_returned":during_returned}));
+        } else if after_drops != 1 || rid_of(h.last_reload_id()) != rid0 + 1 || !h.read().check(round as u8 + 2) {
+            rep.mismatch(json!({"what":"after the guard was released the reload did not replace the value exactly once",
+                "type":T::NAME,"guard":kind,"values_dropped":after_drops,"reload_id":rid_of(h.last_reload_id()),"was":rid0}));
+        }
+    }
+    rep.cases += 1;
+}
+
 pub fn c13_types(_args: &[String]) {
     let mut rep = Report::default();
+    probe_guard_pins::<Zst>(&mut rep);
+    probe_guard_pins::<OneByte>(&mut rep);
+    probe_guard_pins::<Heap>(&mut rep);
+    probe_guard_pins::<Align64>(&mut rep);
     probe_type::<Zst>(&mut rep);
     probe_type::<OneByte>(&mut rep);
     probe_type::<Heap>(&mut rep);
